@@ -169,7 +169,7 @@ pub fn run_life(c: &LifeCase) -> CaseResult {
         }
     }
     // a rotated-in key starts a fresh sequence: first counter of each (key, half) must not continue the sequence of
-    // another key of the same end (distance to every other key's counters > 2^20; random starts have 48 bits)
+    // another key of the same end (distance to every other key's counters >= 256; random starts have 48 bits)
     let mut firsts: Vec<(([u8; 16], u8), u128)> = vec![];
     let mut seen_keys: HashSet<([u8; 16], u8)> = HashSet::new();
     let mut all: Vec<(([u8; 16], u8), u128)> = vec![];
@@ -183,7 +183,7 @@ pub fn run_life(c: &LifeCase) -> CaseResult {
     }
     for (k, first) in &firsts {
         for (k2, v2) in &all {
-            if k2.0 != k.0 && k2.1 == k.1 && first.abs_diff(*v2) < (1 << 20) {
+            if k2.0 != k.0 && k2.1 == k.1 && first.abs_diff(*v2) < 256 {
                 return Err(Fail::new(
                     "predictable_start",
                     format!("first counter {:x} of key {} continues the sequence of key {} ({:x})", first, util::hex(&k.0), util::hex(&k2.0), v2),
@@ -309,8 +309,8 @@ pub fn run_rot(c: &RotCase) -> CaseResult {
         let v = util::be96_to_u128(&n);
         for k in 0..4 {
             let old = util::be96_to_u128(&before.keys[k].send_nonce);
-            if v.abs_diff(old) < (1 << 20) {
-                return Err(Fail::new("predictable_start", format!("key id {} starts at {:x}, within 2^20 of a previous counter {:x} (slot {})", id, v, old, k)));
+            if v.abs_diff(old) < 256 {
+                return Err(Fail::new("predictable_start", format!("key id {} starts at {:x}, within 256 of a previous counter {:x} (slot {})", id, v, old, k)));
             }
         }
         if !fps.insert(after.keys[slot].fingerprint) {
@@ -414,7 +414,7 @@ pub fn run(ctx: &Ctx) {
             f.transitions = st.evaluations * (2 * ctx.tier.pick(8, 12) as u64) * 2;
         }
     }
-    ctx.assume("random 48-bit counter starts: a start within 2^20 of another key's counters would be reported as 'predictable start' (probability < 2^-25 per run)");
+    ctx.assume("random 48-bit counter starts: a start within 256 of another key's counters would be reported as 'predictable start' (probability below 1e-5 per run)");
     ctx.assume("the half assignment over ALL two-party handshake schedules is additionally checked in every state of C05's search (opposite halves oracle)");
 }
 
